@@ -84,6 +84,8 @@ func specs() []spec {
 			writers: [][]batch{{mk([]int64{base + 1}, map[string][]interface{}{"v": f(1.5)}), mk([]int64{base + 2}, map[string][]interface{}{"v": f(2.5)})}}},
 		{name: "all-null column + sparse column, close without explicit flush", bufSize: 10, workers: 1, noFlush: true,
 			writers: [][]batch{{mk([]int64{base + 1, base + 2}, map[string][]interface{}{"v": f(nil, nil), "s": f("a", nil)})}, {mk([]int64{base + 3}, map[string][]interface{}{"v": f(7.0)})}}},
+		{name: "one batch straddling the Unix epoch inside (-1h,+1h)", bufSize: 10, workers: 1,
+			writers: [][]batch{{mk([]int64{-30 * 60 * 1_000_000, 15 * 60 * 1_000_000, -15 * 60 * 1_000_000, 30 * 60 * 1_000_000}, map[string][]interface{}{"v": f(1.0, 2.0, 3.0, 4.0)})}}},
 		{name: "type change of a column between writers", bufSize: 10, workers: 1,
 			writers: [][]batch{{mk([]int64{base + 1}, map[string][]interface{}{"v": f(1.5)})}, {mk([]int64{base + 2}, map[string][]interface{}{"v": f("str")})}}},
 	}
